@@ -235,6 +235,7 @@ def run(ctx, repo):
                    'outside a handler that converts OverflowError to ValueError; no int() of a float')
     ctx.rule('R6', "round_up_str_num: the integer part taken from split('.') may be empty; every path to the return tests or rebuilds it")
     ctx.rule('R7', 'round_up_str_num: the slice bounded by the noise cut-off keeps exactly maxDP characters (polynomial slice length)')
+    ctx.rule('R9', 'documented defaults: round_up_str_num cuts noise after 5 decimals, format_seconds_as_time prints whole seconds')
     ctx.rule('R8', 'parse_hms / str2num: no index subscript, division, format of wrong arity or unknown call outside a handler that converts it '
                    'to ValueError (may-raise inventory, handlers included)')
     ctx.rule('R4', 'round_up_str_num: a length derived from a digit string is not used to slice the string after it was re-built (carry that adds a digit)')
@@ -398,6 +399,22 @@ def run(ctx, repo):
     if n_cut == 0:
         ctx.finding('R7', '%s::round_up_str_num::no cut-off' % UTILS, UTILS, rus.lineno,
                     'no slice of round_up_str_num is bounded by %s: the noise beyond the %s-th decimal is not removed' % (cut, cut))
+    # ---- R9 the defaults the statement names: noise begins after the fifth decimal; formatting defaults to whole seconds
+    def default_of(fn_, name):
+        a = fn_.args
+        pos = a.args
+        ds = dict(zip([x.arg for x in pos[len(pos) - len(a.defaults):]], a.defaults))
+        ds.update({k.arg: v for k, v in zip(a.kwonlyargs, a.kw_defaults) if v is not None})
+        v = ds.get(name)
+        return v.value if isinstance(v, ast.Constant) else None
+    for fn_, name, want in ((rus, cut, 5), (mod.func('format_seconds_as_time'), mod.func('format_seconds_as_time').args.args[1].arg, 0)):
+        got = default_of(fn_, name)
+        if got == want:
+            ctx.ok('R9', '%s: default %s = %r' % (fn_.name, name, want))
+        else:
+            ctx.finding('R9', '%s::%s::default of %s' % (UTILS, fn_.name, name), UTILS, fn_.lineno,
+                        '%s now defaults %s to %r; the documented behaviour (digits beyond the fifth decimal are noise / whole seconds by default) '
+                        'is what every caller that omits the argument relies on' % (fn_.name, name, got), got)
     # ---- R8 may-raise inventory of str2num / parse_hms: every operation that can raise something other than ValueError
     n_ops = 0
     for fn in (mod.func('str2num'), mod.func('parse_hms')):
